@@ -1,9 +1,9 @@
-(* Generated media sections (sdp.go addTransceiverSDP, codec and extmap part)
-   and the two PeerConnection paths that produce them in the harness: a first
-   offer, and an answer to a remote offer.  Transceiver-to-section matching
-   (findByMid / satisfyTypeAndDirection) is not modelled here: the harness says
-   which local transceiver, if any, each remote section is given.
-   No proofs here. *)
+(* Generated media sections (sdp.go addTransceiverSDP, codec and extmap part):
+   the section of one transceiver, the sections of a first offer, the remote
+   description with header extensions.  Which transceiver answers which offered
+   section is modelled in Model/CodecAssoc.v; answer_sections below takes the
+   association as an argument and is kept for the single-description witnesses
+   of Proofs/Section.v.  No proofs here. *)
 From Coq Require Import List ZArith NArith String Ascii Bool.
 Import ListNotations.
 From Verif Require Import Common.Base Model.Fmtp Model.Codec Model.HeaderExt.
